@@ -30,6 +30,40 @@ func profileByName(name string) Profile {
 		p.W["symlink"] = 1
 		p.W["stale"] = 0
 		p.MaxWrite = 40000
+	case "reclaim": // C05: build, then delete everything
+		p.W["write"] = 14
+		p.W["bigwrite"] = 6
+		p.W["truncate"] = 8
+		p.W["mkdir"] = 8
+		p.W["rename"] = 8
+		p.W["stale"] = 1
+		p.W["restart"] = 1
+		p.Reclaim = true
+	case "stale": // C08: heavy inode reuse, dead handles everywhere
+		p.W["write"] = 3
+		p.W["read"] = 2
+		p.W["truncate"] = 1
+		p.W["create"] = 12
+		p.W["mkdir"] = 8
+		p.W["symlink"] = 4
+		p.W["rename"] = 8
+		p.W["remove"] = 14
+		p.W["rmdir"] = 8
+		p.W["stale"] = 30
+		p.W["restart"] = 5
+	case "fail": // C09: nearly full disks, requests that fail late
+		p.W["write"] = 16
+		p.W["bigwrite"] = 6
+		p.W["create"] = 14
+		p.W["mkdir"] = 10
+		p.W["symlink"] = 6
+		p.W["badname"] = 10
+		p.W["rename"] = 10
+		p.W["remove"] = 3
+		p.W["rmdir"] = 2
+		p.W["truncate"] = 4
+		p.W["restart"] = 2
+		p.MaxWrite = 60000
 	case "names": // namespace heavy
 		p.W["write"] = 3
 		p.W["read"] = 2
@@ -87,6 +121,9 @@ func runSeq(idx int, seed int64, nops int, size uint64, prof string, unstable bo
 	pc := Exec(r.srv, Op{Proc: "pathconf"}, root, nil)
 	g.wtmax, g.maxfs, g.nmax = fi.Wtmax, fi.Maxfs, pc.Namemax
 	for i := 0; i < nops; i++ {
+		if g.p.Reclaim && i >= nops*6/10 {
+			g.deleting = true
+		}
 		o := g.Next()
 		fmt.Fprintln(of, o.Sym())
 		rep := r.Step(o)
